@@ -16,7 +16,6 @@ from __future__ import annotations
 
 import itertools
 import json
-import os
 import time
 
 from harness.vlib.core import Ctx, ToolFailure
@@ -24,7 +23,7 @@ from harness.vlib.core import Ctx, ToolFailure
 from . import fixture, real
 
 MODEL_FILES = ["MypyVerif/Model/Types.lean", "MypyVerif/Proofs/Types.lean", "MypyVerif/Proofs/TypesSub.lean",
-               "MypyVerif/Proofs/TypesHier.lean", "MypyVerif/Proofs/TypesTrans.lean"]
+               "MypyVerif/Proofs/TypesHier.lean", "MypyVerif/Proofs/TypesTrans.lean", "MypyVerif/Proofs/TypesSimp.lean"]
 OPS = ["sub", "psub", "join", "meet", "simp"]
 FUNCTION_NAME = "<builtins.function>"
 
@@ -34,7 +33,7 @@ def random_annotations(ctx: Ctx, n: int, max_depth: int) -> list[str]:
     """Random model-fragment annotations of nesting depth 2..max_depth (all derived from ctx.rng)."""
     rng = ctx.rng
     classes = ["A", "B", "C", "D", "E", "F", "Sub", "CoSub"]
-    atoms = classes + ["object", "None", "int", "str", "Literal[1]", "Literal[2]", "Literal['a']", "NoReturn"]
+    atoms = classes + ["object", "None", "int", "bytes", "Literal[1]", "Literal[2]", "Literal[b'a']", "NoReturn"]
     generics = ["Inv", "Co", "Cn", "CoP", "CnP", "InvCo", "Sequence"]
 
     def gen(d: int, in_union: bool = False) -> str:
@@ -279,7 +278,7 @@ def simp_lists(ctx: Ctx, u: Universe) -> list[list[int]]:
     """Item lists (indices of model types) for make_simplified_union: structured ones hitting the literal fast path
     and the two-pass removal, plus random ones."""
     want = [["Literal[1]", "int", "Literal[2]"], ["Literal[1]", "Literal[2]", "int"], ["int", "Literal[1]", "Literal[2]"],
-            ["B", "A", "D"], ["D", "B", "A"], ["A", "D", "B", "C"], ["None", "A", "B"], ["Literal['a']", "Literal[1]", "str"],
+            ["B", "A", "D"], ["D", "B", "A"], ["A", "D", "B", "C"], ["None", "A", "B"], ["Literal[b'a']", "Literal[1]", "bytes"],
             ["NoReturn", "A", "NoReturn"], ["A | None", "B", "None"], ["Tuple[B, B]", "Tuple[A, B]", "Tuple[A, A]"],
             ["Co[B]", "Co[A]", "CoSub"], ["Callable[[A], B]", "Callable[[B], A]", "Callable[[B], B]"],
             ["Type[B]", "Type[A]", "Callable[[], A]"], ["B | C", "A", "E"], ["Literal[1] | Literal[2]", "Literal[2]", "int"]]
@@ -479,12 +478,6 @@ def main(ctx: Ctx) -> None:
                             "depth 2–4 annotations, types outside the model); a case = one (operation, operand tuple) compared "
                             "between model and code, non-trivial when the operands differ; laws are evaluated on all ordered "
                             "pairs and all triples of the whole universe")
-    if os.environ.get("VERIF_C08_WITH_PROPOSED") == "1":
-        # builder's self-test mode: also accept the entries proposed for known_findings.json
-        prop = json.load(open(os.path.join(os.path.dirname(__file__), "proposed_known_findings.json")))["findings"]
-        have = {e.get("id") for e in ctx.findings}
-        ctx.findings.extend(e for e in prop if e["id"] not in have)
-        ctx.coverage["proposed_known_findings_assumed"] = [e["id"] for e in prop if e["id"] not in have]
     proved = ctx.prove("MypyVerif.Props.C08", MODEL_FILES)
     ctx.trusted("model: Model/Types.lean transcribes is_subtype/is_proper_subtype/join_types/meet_types/make_simplified_union "
                 "for the Any-free fragment described in its header; `Type.__eq__` (set comparison of union items) is modelled "
